@@ -49,8 +49,8 @@ def bounded_sums(which):
     rng = np.random.default_rng(Int('seed', 0, 10 ** 6))
     Q = P + 'qpoly.'
     tol = dict(rtol=1e-8, atol=1e-9)
-    u = rng.uniform(0.05, 0.95, (3, 4))
-    t = rng.uniform(-3, 3, (3, 4))
+    u = vary_layout(rng, rng.uniform(0.05, 0.95, (3, 4)))      # coordinates in any memory layout
+    t = vary_layout(rng, rng.uniform(-3, 3, (3, 4)))
     if which == 'jacobi_sum_clenshaw':
         a, b = float(rng.uniform(-0.9, 3)), float(rng.uniform(-0.9, 3))
         L = int(rng.integers(1, 11))
